@@ -170,6 +170,12 @@ def run(rep, tier):
             if ev.get("k") == "call" and callee_of(ev) == EXEC:
                 sites.append((fn, b, i, ev))
     allowed = {SS + "::request_stop": 1, SS + "::lock_if_not_stopped": None}
+    def owner(fn_):
+        # a local lambda belongs to the function it is written in (its body is spliced into that function's CFG)
+        while fn_.parent is not None and fn_.parent != -1 and fn_.parent in F.by_id:
+            fn_ = F.by_id[fn_.parent]
+        return fn_
+    sites = [(fn, b, i, ev) for fn, b, i, ev in sites if fn.parent in (-1, None) or owner(fn).qname not in allowed]
     for fn, b, i, ev in sites:
         if fn.qname not in allowed:
             rep.bad("C14.R4", fn, loc_of(ev), "execute-caller", "stop_callback_base::execute() called from %s: callbacks may run twice" % fn.qname)
@@ -185,13 +191,14 @@ def run(rep, tier):
     else:
         rep.bad("C14.R4", rs, loc_of(eev), "execute-locked", "the callback runs while the stop_state lock is held: a callback that "
                 "deregisters another stop_callback (or its own) deadlocks in remove_callback")
-    unlink = lambda e: e.get("k") == "write" and P(e["lhs"]) == "cb->prev_" and T(strip(e["rhs"])) == "nullptr"
-    if precedes_on_all_paths(rs, unlink, (eb, ei), reset_pred=lambda e: e.get("k") == "decl" and e.get("var") == "cb"):
+    CB = P(eev.get("recv"))            # the callback being run (whatever the local is called)
+    unlink = lambda e: e.get("k") == "write" and P(e["lhs"]) == CB + "->prev_" and T(strip(e["rhs"])) == "nullptr"
+    if precedes_on_all_paths(rs, unlink, (eb, ei), reset_pred=lambda e: e.get("k") == "decl" and e.get("var") == CB):
         rep.ok("C14.R4", rs, "the callback is marked unlinked (prev_ = nullptr) before it runs")
     else:
         rep.bad("C14.R4", rs, loc_of(eev), "execute-linked", "callback executed without being marked removed from the list first")
     deq = lambda e: e.get("k") == "write" and P(e["lhs"]) == "this->callbacks_"
-    if precedes_on_all_paths(rs, deq, (eb, ei), reset_pred=lambda e: e.get("k") == "decl" and e.get("var") == "cb"):
+    if precedes_on_all_paths(rs, deq, (eb, ei), reset_pred=lambda e: e.get("k") == "decl" and e.get("var") == CB):
         rep.ok("C14.R4", rs, "the list head is advanced before the callback runs (each callback dequeued once)")
     else:
         rep.bad("C14.R4", rs, loc_of(eev), "no-dequeue", "callbacks_ is not advanced before execute(): the same callback runs again")
@@ -203,10 +210,15 @@ def run(rep, tier):
         b, i, ev = fin[0]
         mo = (ev.get("mo") or ["memory_order_seq_cst"])[0]
         after = precedes_on_all_paths(rs, lambda e: e.get("k") == "call" and callee_of(e) == EXEC, (b, i),
-                                      reset_pred=lambda e: e.get("k") == "decl" and e.get("var") == "cb")
+                                      reset_pred=lambda e: e.get("k") == "decl" and e.get("var") == CB)
         ff = FactFlow(rs)
         extra = ff.before[(b, i)] - (ff.before[(eb, ei)] or frozenset())
-        extra = {x for x in extra if x != ("is_removed", False)}
+        flagvars = set(T(strip(e_["rhs"]))[1:] for _, _, e_ in rs.all_events() if e_.get("k") == "write" and P(e_["lhs"]).endswith("->is_removed_") and
+                       T(strip(e_.get("rhs"))).startswith("&"))
+        for _ in range(2):      # reference aliases of the flag count as the flag
+            flagvars |= set(e_.get("var") for _, _, e_ in rs.all_events() if e_.get("k") == "decl" and str(e_.get("type", "")).rstrip().endswith("&") and
+                            e_.get("init") is not None and T(strip(e_["init"])) in flagvars)
+        extra = {x for x in extra if not (x[0] in flagvars and x[1] is False)}
         if T(ev["args"][0]) == "true" and mo in ("memory_order_release", "memory_order_seq_cst", "memory_order_acq_rel") and after and not extra:
             rep.ok("C14.R4", rs, "finished flag stored (true, %s) after execute() unless the callback removed itself" % mo)
         else:
@@ -241,8 +253,26 @@ def run(rep, tier):
         seen = any(t and a.startswith("stop_requested(") for a, t in fb)
         miss = always_followed_by(li, (b, i), lambda e: e.get("k") == "call" and callee_short(e) == "store" and
                                   P(e.get("recv")).endswith("callback_finished_executing_"))
-        blk = li.blocks[b]
-        ret_false = any(e.get("k") == "return" and T(strip(e.get("e"))) == "false" for e in blk.events[i:])
+        # the next return on every path after the execute() is 'return false'
+        def next_returns(b0, i0):
+            outs, seen_b, work = [], set(), [(b0, i0 + 1)]
+            while work:
+                bb, ii = work.pop()
+                evs_ = li.blocks[bb].events[ii:]
+                r_ = [e for e in evs_ if e.get("k") == "return"]
+                if r_:
+                    outs.append(T(strip(r_[0].get("e"))))
+                    continue
+                if bb == li.exit:
+                    outs.append("<fall-off>")
+                    continue
+                for _, t_ in li.succs(bb):
+                    if t_ not in seen_b:
+                        seen_b.add(t_)
+                        work.append((t_, 0))
+            return outs
+        nr = next_returns(b, i)
+        ret_false = bool(nr) and all(x == "false" for x in nr)
         if seen and not miss and ret_false:
             rep.ok("C14.R4", li, "immediate execute() at %s only when stop was already requested; publishes finished and returns false" % loc_of(ev))
         else:
